@@ -59,8 +59,9 @@ def build(chk):
     chk.assumptions_used.update(["A-REAL", "A-INT"])
     with chk.borrow("C15"):
         centroiders.obligations(chk)
+        centroiders.brightest_obligations(chk)
         chk.bounded_native("correlation_centroid / brightest_pixel on a stack give, per frame, what the frame alone gives (frames with different background levels)", "correlation", "see native/C15.py", "aotools/image_processing/centroiders.py:correlation_centroid")
-        chk.bounded_native("brightest_pixel: stack = frame", "brightest", "see native/C15.py", "aotools/image_processing/centroiders.py:brightest_pixel")
+        chk.bounded_native("brightest_pixel: stack = frame (IEEE / dtype bridge of the clause proved over the reals; stacks with 1-3 leading axes)", "brightest", "see native/C15.py", "aotools/image_processing/centroiders.py:brightest_pixel")
     with chk.borrow("C16"):
         imaging.bin_obligations(chk)
     with chk.borrow("C09"):
